@@ -18,9 +18,11 @@
     the value is `(P−N)/(P+N)` (0 when both vanish) (`C05_cmo_step`).
   * Aroon: `(period − age)/period` of the newest highest high / lowest low, the ages being characterised by
     `HighestIndex.Inv` (C04: newest maximal element) (`C05_aroon_step`).
+  * Bollinger: centre = mean, variance under the bands = sample variance of the last `avg_size` sources, from
+    invariant SMA / StDev states (`C05_bollinger_step`; the bands are centre ± sigma·sqrt(variance), sqrt not modelled).
   * Money-flow: the source's `1 − 1/(1 + pmf/nmf)` is `pmf/(pmf+nmf)` (`C05_mfi_formula`).
   * Parabolic SAR: the returned pair is the state after the flip test (`C05_sar_values`).
-  Partial: Bollinger, Stochastic, Keltner, Envelopes, Ichimoku, CMF, TSI/SMI value theorems over whole
+  Partial: Stochastic, Keltner, Envelopes, Ichimoku, CMF, TSI/SMI value theorems over whole
   histories are not written (those models are validated by the correspondence run only); floats are outside.
 -/
 import YataProofs.Indicators.More
@@ -82,6 +84,14 @@ theorem C05_aroon_step {P : Nat} {s : Aroon} (k : Candle ℚ)
       Window.toList s'.lowest_index.window = (Window.toList s.lowest_index.window).tail ++ [k.low] ∧ s'.cfg = s.cfg :=
   Aroon.vals_spec k hh hl
 
+theorem C05_bollinger_step {P : Nat} {hist : List ℚ} {s : BB} (k : Candle ℚ) (hn : 2 ≤ s.cfg.avg_size)
+    (hm : SMA.Inv P s.cfg.avg_size hist s.ma) (hd : StDev.Inv P s.cfg.avg_size hist s.st_dev) :
+    let n := s.cfg.avg_size
+    let w := lastN n (hist ++ [k.source s.cfg.source])
+    ∃ s', s.step k = .ok (Spec.mean n w, (w.map fun x => (x - Spec.mean n w) * (x - Spec.mean n w)).sum / ((n - 1 : Nat) : ℚ), s') ∧
+      SMA.Inv P n (hist ++ [k.source s.cfg.source]) s'.ma ∧ StDev.Inv P n (hist ++ [k.source s.cfg.source]) s'.st_dev ∧
+      s'.cfg = s.cfg := BB.step_spec k hn hm hd
+
 theorem C05_mfi_formula (p n : ℚ) (hp : 0 ≤ p) (hn : 0 < n) : 1 - 1 / (1 + p / n) = p / (p + n) := mfi_formula p n hp hn
 
 theorem C05_sar_values (s : SAR) (k : Candle ℚ) :
@@ -104,3 +114,4 @@ end Yata.C05
 #print axioms Yata.C05.C05_mfi_formula
 #print axioms Yata.C05.C05_sar_values
 #print axioms Yata.C05.C05_aroon_step
+#print axioms Yata.C05.C05_bollinger_step
